@@ -213,6 +213,7 @@ pub fn gen_read_case(rng: &mut Rng, prop: &str) -> ReadCase {
                 eintr_pm: *rng.pick(&[0u16, 100, 400]),
                 seed: rng.next_u64(),
                 hard: None,
+                hard_kind: 0,
             }
         } else {
             ReadFaults::default()
@@ -223,6 +224,7 @@ pub fn gen_read_case(rng: &mut Rng, prop: &str) -> ReadCase {
     // F10: one hard read/seek error inside one operation of the history (1 case in 4)
     if rng.chance(1, 4) && !rc.ops.is_empty() {
         rc.read.hard = Some((rng.below(rc.ops.len() as u64) as u32, rng.below(10) as u32));
+        rc.read.hard_kind = rng.below(4) as u8;
     }
     rc
 }
@@ -987,6 +989,7 @@ pub fn gen_c05(rng: &mut Rng, idx: u64) -> ReadCase {
                 eintr_pm: 100,
                 seed: rng.next_u64(),
                 hard: None,
+                hard_kind: 0,
             }
         } else {
             ReadFaults::default()
@@ -1221,6 +1224,7 @@ pub fn gen_c10(rng: &mut Rng) -> EncCase {
                 eintr_pm: *rng.pick(&[0u16, 200]),
                 seed: rng.next_u64(),
                 hard: None,
+                hard_kind: 0,
             }
         } else {
             ReadFaults::default()
@@ -1229,6 +1233,7 @@ pub fn gen_c10(rng: &mut Rng) -> EncCase {
     };
     if rng.chance(1, 4) {
         ec.read.hard = Some((rng.below(ec.ops.len() as u64) as u32, rng.below(10) as u32));
+        ec.read.hard_kind = rng.below(4) as u8;
     }
     ec
 }
